@@ -33,7 +33,8 @@ META = {
                    "JSON and CSV renderers are compared field by field; the column table is cross-checked against the "
                    "attribute definitions; the cost column's dataflow is followed to rate and ledger seconds; the "
                    "filter dispatch is checked for text-typed filters."
-                   " Also: dominance of the table rebuild over every format writer, no loop editing the list it iterates, structure of the ledger scan in getCost, sibling agreement of allocation forms between booking and cost code, kind-preserving sort key, uninterpreted filter text (known finding F57) and the shared-container census under report generation.",
+                   " Also: dominance of the table rebuild over every format writer, no loop editing the list it iterates, structure of the ledger scan in getCost, sibling agreement of allocation forms between booking and cost code, kind-preserving sort key, uninterpreted filter text (known finding F57) and the shared-container census under report generation."
+                   " Round 3: the file writers receive the rendering itself, not a selection of its rows.",
     "assumptions": [],
 }
 
